@@ -50,6 +50,9 @@ PROPS = {
     "C05": {"modules": [P + "C05"], "streams": ["heap"]},
     "C06": {"modules": [P + "C06", P + "C06b"], "streams": ["dist"]},
     "C07": {"modules": [P + "C07"], "streams": ["dist", "fit", "select"], "relevant": {"dist": None}},
+    "C09": {"modules": [P + "C09"], "streams": ["fit", "semi", "knnpred"], "relevant": {"predict": [0], "knnq": None}},
+    "C15": {"modules": [P + "C15"], "streams": ["semi"], "relevant": {"fit": [0, 1, 2, 3, 5, 6], "lawfit": None}},
+    "C16": {"modules": [P + "C16"], "streams": ["select"], "relevant": {"selmax": None, "selcut": None}},
     "C12": {"modules": [P + "C12Arcs", P + "C12Pdf"], "streams": ["knn"]},
     "C13": {"modules": [P + "C13"], "streams": ["cluster"]},
     "C14": {"modules": [P + "C14", P + "C12Pdf"], "streams": ["knnpred"]},
